@@ -53,6 +53,8 @@ def _worker(args: Tuple[str, float, str]) -> Dict[str, Any]:
         rep = verify_function(c, timeout_s=timeout_s)
         clauses = {cl.label: cl for cl in c.ensures + c.canaries}
         obs = []
+        confirmed: Dict[Any, str] = {}
+        attempts: Dict[Any, int] = {}
         for o in rep.obligations:
             r = o.result
             d = {"name": o.name, "func": o.func, "kind": o.kind, "label": o.label, "path": o.path, "tags": o.tags,
@@ -61,10 +63,21 @@ def _worker(args: Tuple[str, float, str]) -> Dict[str, Any]:
                  "finding": getattr(o, "finding", None)}
             if r and r.status == "sat" and not o.must_fail:
                 cl = clauses.get(o.label.split("#")[0])
-                try:
-                    d["replay"] = replay(c, cl, o)
-                except Exception as e:
-                    d["replay"] = {"status": "no-input", "detail": f"replay crashed: {type(e).__name__}: {e}"}
+                key = (o.kind, o.label)
+                if getattr(o, "finding", None) in KNOWN_IDS:
+                    d["replay"] = {"status": "known-finding", "detail": "case of a listed finding: not replayed"}
+                elif confirmed.get(key):
+                    d["replay"] = {"status": "same-clause", "detail": f"clause already replayed as violation: {confirmed[key]}"}
+                elif attempts.get(key, 0) >= 6:
+                    d["replay"] = {"status": "skipped", "detail": "replay budget for this clause used up"}
+                else:
+                    attempts[key] = attempts.get(key, 0) + 1
+                    try:
+                        d["replay"] = replay(c, cl, o)
+                    except Exception as e:
+                        d["replay"] = {"status": "no-input", "detail": f"replay crashed: {type(e).__name__}: {e}"}
+                    if d["replay"]["status"] == "violation":
+                        confirmed[key] = o.name
                 d["model_excerpt"] = str(r.model)[:1500] if r.model is not None else ""
             obs.append(d)
         return {"target": target, "status": rep.status, "reason": rep.reason, "paths": rep.paths,
@@ -75,6 +88,9 @@ def _worker(args: Tuple[str, float, str]) -> Dict[str, Any]:
         return {"target": target, "status": "error", "reason": f"{type(e).__name__}: {e}\n{traceback.format_exc()[-1200:]}",
                 "paths": 0, "infeasible": 0, "seconds": time.time() - t0, "obligations": [], "calls_by_contract": [],
                 "inlined": [], "trusted": False, "pre_witness": False}
+
+
+KNOWN_IDS: set = set()
 
 
 def load_known() -> Dict[str, Any]:
@@ -88,7 +104,8 @@ def run_property(pid: str, tier: str, seed: int) -> int:
     t0 = time.time()
     reg = load_contracts()
     known = load_known()
-    known_ids = {f["id"]: f for f in known.get("findings", []) if f.get("property") == pid or pid in f.get("properties", [])}
+    known_ids = {f["id"]: f for f in known.get("findings", [])}
+    KNOWN_IDS.update(known_ids)
     targets = [t for t, c in reg.items() if pid in contract_props(c) and not c.trusted]
     trusted = [t for t, c in reg.items() if c.trusted]
     timeout_s = 10.0 if tier == "quick" else 60.0
@@ -152,12 +169,17 @@ def run_property(pid: str, tier: str, seed: int) -> int:
                 refuted.append(o)
             else:
                 undecided.append({"obligation": o["name"], "reason": o["reason"] or "solver unknown/timeout"})
-    for fid, fstat in finding_state.items():
-        if fstat["sat"]:
-            known_lines.append(f"KNOWN-FINDING: property={pid} {fid} {known_ids[fid].get('what', '')} "
-                               f"[{len(fstat['sat'])} obligation(s), e.g. {fstat['sat'][0]}]")
-        elif fid in known_ids:
-            stale.append(f"STALE-FINDING: {fid}: every obligation of its case now discharges")
+    from vf.witness import still_present
+    for fid, f in known_ids.items():
+        if pid not in f.get("properties", []):
+            continue
+        sp = still_present(fid)
+        fstat = finding_state.get(fid, {"sat": [], "unsat": 0})
+        if sp is None or sp:
+            known_lines.append(f"KNOWN-FINDING: property={pid} {fid} {f.get('what', '')[:300]} "
+                               f"[witness replayed: still failing; refuted obligations of its case: {len(fstat['sat'])}]")
+        else:
+            stale.append(f"STALE-FINDING: {fid}: the recorded witness no longer fails on this tree")
     for o in refuted:
         rp = o.get("replay", {"status": "no-input", "detail": ""})
         fname = o["name"].replace("/", "_").replace(":", "_").replace("[", ".").replace("]", "").replace("@", ".")[-150:]
@@ -169,6 +191,8 @@ def run_property(pid: str, tier: str, seed: int) -> int:
             violations.append((path, ""))
         elif rp["status"] == "no-input":
             violations.append((path, " no-failing-input-found"))
+        elif rp["status"] == "same-clause":
+            pass
         else:
             undecided.append({"obligation": o["name"], "reason": "refuted in the abstraction only (replay holds natively): "
                               + rp.get("detail", "")[:200]})
